@@ -41,9 +41,10 @@ VARIABLES
   user,       \* user contract deployment: "none" / "inflight" / "active" / "error"
   res,        \* result of the last action
   routed,     \* ids routed to an attester by the last EndBlock (sequence)
+  now,        \* block height, relative to the start (time is a dimension: the processed set never forgets)
   applied     \* history: sequence of [m, kind, tx, exact, ok, fresh] for every application of success effects
 
-vars == <<msgs, nextId, txs, processed, live, deploy, active, user, res, routed, applied>>
+vars == <<msgs, nextId, txs, processed, live, deploy, active, user, res, routed, applied, now>>
 effvars == <<live, deploy, active, user>>
 
 -----------------------------------------------------------------------------
@@ -107,7 +108,7 @@ InitW(w) ==
   LET s == WRec(w) IN
   /\ msgs = s.msgs /\ nextId = s.nextId /\ txs = s.txs /\ processed = s.processed
   /\ live = s.live /\ deploy = s.deploy /\ active = s.active /\ user = s.user
-  /\ res = "start" /\ routed = <<>> /\ applied = <<>>
+  /\ res = "start" /\ routed = <<>> /\ applied = <<>> /\ now = 0
 Init == InitW(0)
 
 -----------------------------------------------------------------------------
@@ -130,14 +131,14 @@ Enqueue(kind) ==
           /\ user' = IF kind = "uusc" THEN "inflight" ELSE user
           /\ res' = "ok"
      ELSE /\ UNCHANGED <<msgs, nextId, deploy, user>> /\ res' = "noop"
-  /\ UNCHANGED <<txs, processed, live, active, routed, applied>>
+  /\ UNCHANGED <<txs, processed, live, active, routed, applied, now>>
 
 (* Sign *)
 Sign(v, m) ==
   /\ IF m \in DOMAIN msgs /\ v \notin Range(msgs[m].sigs)
      THEN msgs' = [msgs EXCEPT ![m].sigs = Append(@, v)] /\ res' = "ok"
      ELSE UNCHANGED msgs /\ res' = "fail"
-  /\ UNCHANGED <<nextId, txs, processed, live, deploy, active, user, routed, applied>>
+  /\ UNCHANGED <<nextId, txs, processed, live, deploy, active, user, routed, applied, now>>
 
 (* Evidence *)
 TxKey(of, k, corr) == <<of, k, corr>>
@@ -150,10 +151,13 @@ DataOf(of, k, corr) ==
         s |-> IF IsUsc(msgs[of].kind) THEN {} ELSE FirstK(msgs[of].sigs, k),
         x |-> IF k = 0 /\ ~IsUsc(msgs[of].kind) /\ corr = "none" THEN "k0" ELSE corr]   \* no signature at all is not a prefix
 
+\* st: the receipt the validator attaches: "ok" / "fail" (status), "absent" (no receipt bytes; "empty" bytes are the
+\* same thing once stored), "bad" (bytes that are no receipt).  Only "ok" can ever prove delivery.
+RcSt(st) == IF st = "empty" THEN "absent" ELSE st
 \* rg: any other content of the receipt the validator reports (gas used, logs); evidence is identical only if
 \* transaction, receipt status AND the rest of the receipt are identical
 Evidence(v, m, t, of, k, corr, st, n, rg) ==
-  LET e == IF t = "err" THEN ErrProof ELSE [t |-> "tx", tx |-> <<DataOf(of, k, corr), n>>, st |-> st, rg |-> rg] IN
+  LET e == IF t = "err" THEN ErrProof ELSE [t |-> "tx", tx |-> <<DataOf(of, k, corr), n>>, st |-> RcSt(st), rg |-> IF RcSt(st) \in {"ok", "fail"} THEN rg ELSE 0] IN
   /\ IF t = "tx" /\ ~CanBuild(of, k, corr)
      THEN UNCHANGED <<msgs, txs>> /\ res' = "nobuild"
      ELSE /\ txs' = IF t = "tx" THEN Put(txs, TxKey(of, k, corr), DataOf(of, k, corr)) ELSE txs
@@ -163,13 +167,13 @@ Evidence(v, m, t, of, k, corr, st, n, rg) ==
                                           ![m].errd = IF msgs[m].pad = 0 /\ ~@ /\ t = "err" THEN TRUE ELSE @]
                   /\ res' = "ok"
              ELSE UNCHANGED msgs /\ res' = "fail"
-  /\ UNCHANGED <<nextId, processed, live, deploy, active, user, routed, applied>>
+  /\ UNCHANGED <<nextId, processed, live, deploy, active, user, routed, applied, now>>
 
 -----------------------------------------------------------------------------
 (* EndBlock *)
 Winners(m) == {e \in Range(m.ev) : Quorum({v \in DOMAIN m.ev : m.ev[v] = e})}
 StateRec == [msgs |-> msgs, nextId |-> nextId, processed |-> processed, live |-> live, deploy |-> deploy,
-             active |-> active, user |-> user, applied |-> applied, routed |-> <<>>, err |-> ""]
+             active |-> active, user |-> user, applied |-> applied, routed |-> <<>>, err |-> "", fail |-> 0]
 
 Remove(st, id) == [st EXCEPT !.msgs = Restrict(st.msgs, DOMAIN st.msgs \ {id})]
 Spawn(st, m) == [st EXCEPT !.msgs = Put(st.msgs, st.nextId, m), !.nextId = st.nextId + 1]
@@ -203,10 +207,14 @@ OnAccepted(st, id, m, tx) ==
 ProcessOne(st, id) ==
   IF id \notin DOMAIN st.msgs THEN st ELSE
   LET m == st.msgs[id]  W == Winners(m) IN
+  IF ~Quorum(DOMAIN m.ev) THEN st ELSE
+  \* the tally decodes every piece of evidence once the voters hold 2/3: one undecodable receipt fails it
+  IF \E v \in DOMAIN m.ev : m.ev[v].st = "bad" THEN [st EXCEPT !.err = "other", !.fail = id] ELSE
   IF W = {} THEN st ELSE
   LET e == CHOOSE x \in W : TRUE
-      sr == [st EXCEPT !.routed = Append(@, id)] IN
+      sr == [st EXCEPT !.routed = Append(@, id), !.fail = id] IN     \* fail is cleared again unless err is set
   IF e.t = "err" THEN OnErrProof(sr, id, m)
+  ELSE IF e.st = "absent" THEN [sr EXCEPT !.err = "other"]                             \* no receipt, no proof: nothing changes
   ELSE IF e.st # "ok" THEN [Remove(sr, id) EXCEPT !.processed = @ \cup {e.tx}, !.err = "txfailed"]
   ELSE IF e.tx \in st.processed THEN [sr EXCEPT !.err = "processed"]                \* cache context dropped: nothing changes
   ELSE IF ~ExactFor(id, m, e.tx[1], Lv(st)) THEN [Remove(sr, id) EXCEPT !.processed = @ \cup {e.tx}, !.err = "notverified"]
@@ -224,7 +232,16 @@ EndBlock ==
   /\ msgs' = s.msgs /\ nextId' = s.nextId /\ processed' = s.processed /\ live' = s.live /\ deploy' = s.deploy
   /\ active' = s.active /\ user' = s.user /\ applied' = s.applied /\ routed' = s.routed
   /\ res' = IF s.err = "" THEN "eb" ELSE s.err
+  /\ now' = now + 1
   /\ UNCHANGED txs
+
+\* the message at which the attestation pass stopped with an error (0: none)
+EndBlockFailed == IF EndBlockResult.err = "" THEN 0 ELSE EndBlockResult.fail
+
+(* time passes: d blocks without anything else happening; what was processed stays processed *)
+Advance(d) ==
+  /\ now' = now + d /\ res' = "adv"
+  /\ UNCHANGED <<msgs, nextId, txs, processed, live, deploy, active, user, routed, applied>>
 
 -----------------------------------------------------------------------------
 Next ==
